@@ -25,12 +25,16 @@ MODULES = ["pycaption.base", "pycaption.srt", "pycaption.webvtt", "pycaption.mic
 def frame_obligations(g):
     for R in READERS.values():
         frames.object_invariant(R, "read", g)
+    # module-wide obligations restricted to what the readers' entry points can reach (by name,
+    # over-approximated): code only writers use is C09's business
+    trees = {m: frames.module_ast_of(importlib.import_module(m)) for m in MODULES + ["pycaption"]}
+    entries = [(R.__name__, f) for R in READERS.values() for f in ("read", "detect", "__init__")] + [(None, "detect_format")]
+    scoped, dropped = frames.reachable_trees(trees, entries)
+    g.check("scope: some code is reachable from the readers", sum(len(t.body) for t in scoped.values()) > 0, None)
     for m in MODULES:
-        mod = importlib.import_module(m)
-        tree = frames.module_ast_of(mod)
-        frames.no_mutable_defaults(tree, g, m)
-        frames.no_global_mutation(tree, g, m)
-        frames.no_hash_order(tree, g, m)
+        frames.no_mutable_defaults(scoped[m], g, m)
+        frames.no_global_mutation(scoped[m], g, m)
+        frames.no_hash_order(scoped[m], g, m)
     # the helper objects a read() creates are fresh per call
     import ast
     for R, helper in ((SAMIReader, "_get_sami_parser_class"), (DFXPReader, "_get_dfxp_parser_class")):
@@ -84,7 +88,7 @@ def bounded(ctx, b):
                 # unrelated activity in the process
                 for Wr in (SRTWriter, DFXPWriter):
                     try:
-                        Wr().write(second)
+                        Wr().write(copy.deepcopy(second))       # (whether a writer alters its input is C09's business)
                     except Exception:
                         pass
                 third = r.read(a)
